@@ -646,3 +646,294 @@ theorem xqPassword_good (c c' : Ctx) (pw : Option Bytes) (h : CtxOK c) (hp : ∀
       rw [← hc', hcr]; exact h.req.text.credC cli hx
 
 end Iauthd.Proto
+
+namespace Iauthd.Proto
+open Iauthd Iauthd.Proto.Hist
+
+/-! ### replies -/
+
+theorem xqFinishPre_outlim (i : Nat) (c : Ctx) (cli : XqCli) (srv : Svc) :
+    (xqFinishPre i c cli srv).out = c.out ∧ (xqFinishPre i c cli srv).lim = c.lim := by
+  unfold xqFinishPre
+  dsimp only
+  have hu : ∀ c0 : Ctx, (unrefSvc c0 i).out = c0.out := fun c0 => (unrefSvc_out c0 i).1
+  have hl : ∀ c0 : Ctx, (unrefSvc c0 i).lim = c0.lim := fun c0 => (unrefSvc_out c0 i).2
+  constructor
+  · split <;> split <;> simp [updReq, hu]
+  · split <;> split <;> simp [updReq, hl]
+
+theorem xqFinishPre_good (i : Nat) (c : Ctx) (cli : XqCli) (srv : Svc) (h : CtxOK c) (hs : SvcOK srv)
+    (hcred : Clean cli.cred) :
+    CtxOK (xqFinishPre i c cli srv) ∧ (xqFinishPre i c cli srv).out = c.out ∧ (xqFinishPre i c cli srv).lim = c.lim := by
+  refine ⟨?_, (xqFinishPre_outlim i c cli srv).1, (xqFinishPre_outlim i c cli srv).2⟩
+  unfold xqFinishPre
+  dsimp only
+  have hsv : ∀ s, (some { srv with refs := srv.refs - 1 } : Option Svc) = some s → SvcOK s := by
+    intro s hs'; simp only [Option.some.injEq] at hs'; subst hs'; exact hs
+  have h1 : CtxOK { c with svcs := setSvc c.svcs i (some { srv with refs := srv.refs - 1 }) } :=
+    ⟨h.req, h.svcs.set i _ hsv, h.rules, h.lim⟩
+  -- unref or not
+  have h2 : ∀ c1 : Ctx, CtxOK c1 →
+      CtxOK (if ({ srv with refs := srv.refs - 1 } : Svc).refs == 0 then unrefSvc c1 i else c1) ∧
+      (if ({ srv with refs := srv.refs - 1 } : Svc).refs == 0 then unrefSvc c1 i else c1).out = c1.out ∧
+      (if ({ srv with refs := srv.refs - 1 } : Svc).refs == 0 then unrefSvc c1 i else c1).lim = c1.lim := by
+    intro c1 hc1
+    split
+    · exact ⟨unrefSvc_ok hc1 i, (unrefSvc_out c1 i).1, (unrefSvc_out c1 i).2⟩
+    · exact ⟨hc1, rfl, rfl⟩
+  obtain ⟨k2, o2, l2⟩ := h2 _ h1
+  have h3 : ∀ c1 : Ctx, CtxOK c1 →
+      CtxOK (if ({ cli with ref := maskDel cli.ref i } : XqCli).ref.isEmpty then updReq c1 fun r => { r with soft := r.soft - 1 } else c1) ∧
+      (if ({ cli with ref := maskDel cli.ref i } : XqCli).ref.isEmpty then updReq c1 fun r => { r with soft := r.soft - 1 } else c1).out = c1.out ∧
+      (if ({ cli with ref := maskDel cli.ref i } : XqCli).ref.isEmpty then updReq c1 fun r => { r with soft := r.soft - 1 } else c1).lim = c1.lim := by
+    intro c1 hc1
+    split
+    · exact ⟨hc1.upd _ (fun r => ⟨rfl, rfl, rfl, rfl, rfl, rfl, rfl, rfl, rfl, rfl, rfl, rfl⟩), rfl, rfl⟩
+    · exact ⟨hc1, rfl, rfl⟩
+  obtain ⟨k3, o3, l3⟩ := h3 _ k2
+  refine ⟨k3.req.same rfl rfl rfl rfl rfl rfl rfl rfl rfl rfl rfl ?_, k3.svcs, k3.rules, k3.lim⟩
+  intro cli' hc'
+  simp only [updReq, Option.some.injEq] at hc'
+  rw [← hc']; exact hcred
+
+theorem xqFinish_good (st : Static) (i : Nat) (c c' : Ctx) (cli : XqCli) (srv : Svc) (h : CtxOK c) (hs : SvcOK srv)
+    (hcred : Clean cli.cred) (hg : xqFinish st i c cli srv = .ok c') : Good c c' := by
+  rw [xqFinish_eq] at hg
+  obtain ⟨k, o, l⟩ := xqFinishPre_good i c cli srv h hs hcred
+  have g := gate_good st _ _ k hg
+  exact ⟨g.ok, (Wrote.of_eq o l).trans g.wrote⟩
+
+theorem setAccount_props (lim : Limits) (text : Bytes) (ht : Clean text) :
+    NoSp (setAccount lim text) ∧ Clean (setAccount lim text) ∧ (setAccount lim text).length ≤ lim.account := by
+  unfold setAccount
+  refine ⟨?_, (ht.takeWhile _).take _, by rw [List.length_take]; omega⟩
+  intro c hc
+  have h1 : c ∈ text.takeWhile (· != 32) := List.mem_of_mem_take hc
+  have key : ∀ (l : Bytes), ∀ x ∈ l.takeWhile (· != 32), x ≠ 32 := by
+    intro l
+    induction l with
+    | nil => intro x hx; simp at hx
+    | cons y ys ih =>
+      intro x hx
+      rw [List.takeWhile_cons] at hx
+      split at hx
+      · rename_i hy
+        rcases List.mem_cons.mp hx with rfl | h'
+        · simpa using hy
+        · exact ih x h'
+      · simp at hx
+  exact key text c h1
+
+theorem b_plusx : b " :+x" = 32 :: 58 :: [43, 120] := by decide
+
+theorem xqVouch_good (c : Ctx) (cli : XqCli) (stamp : Bytes) (h : CtxOK c) (hst : Clean stamp) :
+    Good c (xqVouch c cli stamp) := by
+  unfold xqVouch
+  dsimp only
+  obtain ⟨a1, a2, a3⟩ := setAccount_props c.lim stamp hst
+  have h1 : CtxOK (updReq c fun r => { r with account := setAccount c.lim stamp }) := by
+    refine ⟨⟨⟨h.req.head.client, h.req.head.port, h.req.head.addrW, h.req.head.addrC, h.req.head.addrL⟩, h.req.serial, ?_⟩,
+      h.svcs, h.rules, h.lim⟩
+    exact ⟨a1, a2, a3, h.req.text.clsS, h.req.text.clsC, h.req.text.clsL, h.req.text.userS, h.req.text.userC,
+      h.req.text.userL, h.req.text.hostC, h.req.text.authC, h.req.text.nickC, h.req.text.realC, h.req.text.credC⟩
+  have h2 : ∀ c1 : Ctx, CtxOK c1 → c1.out = c.out → c1.lim = c.lim →
+      Good c (if cli.modeX || cli.modeBang then c1.emit (sendReq c1.req (b "M") (b " :+x")) else c1) := by
+    intro c1 hc1 ho hl
+    split
+    · refine ⟨hc1.emit _, (Wrote.of_eq ho hl).trans (Wrote.emit _ _ ?_)⟩
+      rw [b_M, b_plusx]
+      exact sendReq_wellFormed mem_letters_M hc1.req.head (RestOK.trailing 77 _ (Or.inr (Or.inl rfl)) (clean_of_cleanB (by decide)))
+    · exact ⟨hc1, Wrote.of_eq ho hl⟩
+  refine h2 _ ?_ ?_ ?_
+  · split
+    · exact h1.upd _ (fun r => ⟨rfl, rfl, rfl, rfl, rfl, rfl, rfl, rfl, rfl, rfl, rfl, rfl⟩)
+    · exact h1
+  · split <;> rfl
+  · split <;> rfl
+
+theorem findRefSlot_mem {svcs : List (Option Svc)} {cli : XqCli} {service : Bytes} {i : Nat} {srv : Svc}
+    (h : findRefSlot svcs cli service = some (i, srv)) : some srv ∈ svcs := by
+  unfold findRefSlot at h
+  suffices hgo : ∀ (l : List (Option Svc)) (k : Nat), findRefSlot.go cli service k l = some (i, srv) → some srv ∈ l from hgo svcs 0 h
+  intro l
+  induction l with
+  | nil => intro k hk; simp [findRefSlot.go] at hk
+  | cons s rest ih =>
+    intro k hk
+    unfold findRefSlot.go at hk
+    split at hk
+    · exact List.mem_cons_of_mem _ (ih _ hk)
+    · split at hk
+      · split at hk
+        · simp only [Option.some.injEq, Prod.mk.injEq] at hk
+          obtain ⟨_, rfl⟩ := hk
+          exact List.mem_cons_self ..
+        · exact List.mem_cons_of_mem _ (ih _ hk)
+      · exact List.mem_cons_of_mem _ (ih _ hk)
+
+theorem apology_shape : b " :The login server is currently disconnected.  Please excuse the inconvenience." =
+    32 :: 58 :: b "The login server is currently disconnected.  Please excuse the inconvenience." := by decide
+
+theorem xqReply_good (st : Static) (c c' : Ctx) (svc : Bytes) (reply : Option Bytes) (h : CtxOK c)
+    (hrep : ∀ r, reply = some r → Clean r) (hg : xqReply st c svc reply = .ok c') : Good c c' := by
+  have emitC : ∀ text, Clean text → Good c (c.emit (sendReq c.req (b "C") (b " :" ++ text))) := by
+    intro text ht
+    refine ⟨h.emit _, Wrote.emit _ _ ?_⟩
+    rw [b_C, b_colon]
+    exact sendReq_wellFormed mem_letters_C h.req.head (RestOK.trailing 67 text (Or.inr (Or.inr rfl)) ht)
+  unfold xqReply at hg
+  split at hg
+  · simp only [pure, Except.pure, Except.ok.injEq] at hg; subst hg; exact Good.refl h
+  · rename_i cli hx
+    have hcred : Clean cli.cred := h.req.text.credC cli hx
+    split at hg
+    · simp only [pure, Except.pure, Except.ok.injEq] at hg; subst hg; exact Good.refl h
+    · rename_i i srv hfind
+      have hs : SvcOK srv := h.svcs srv (findRefSlot_mem hfind)
+      split at hg
+      · -- unlinked
+        dsimp only at hg
+        split at hg
+        · have g0 : Good c (c.emit (sendReq c.req (b "C") (b " :The login server is currently disconnected.  Please excuse the inconvenience."))) := by
+            refine ⟨h.emit _, Wrote.emit _ _ ?_⟩
+            rw [b_C, apology_shape]
+            exact sendReq_wellFormed mem_letters_C h.req.head (RestOK.trailing 67 _ (Or.inr (Or.inr rfl)) (clean_of_cleanB (by decide)))
+          exact g0.trans (xqFinish_good st i _ _ cli _ g0.ok (by exact hs) (by exact hcred) hg)
+        · exact xqFinish_good st i _ _ cli _ h (by exact hs) (by exact hcred) hg
+      · rename_i rep
+        have hrc : Clean rep := hrep rep rfl
+        split at hg
+        · exact xqFinish_good st i _ _ _ _ h (by exact hs) (by exact hcred) hg
+        · rename_i stamp hok
+          dsimp only at hg
+          have hstamp : Clean stamp := by
+            unfold okStamp at hok
+            split at hok
+            · split at hok
+              · cases hok
+              · simp only [Option.some.injEq] at hok; rw [← hok]; exact hrc.drop 3
+            · cases hok
+          split at hg
+          · have g1 := xqVouch_good c { cli with ok := maskAdd cli.ok i } stamp h hstamp
+            exact g1.trans (xqFinish_good st i _ _ _ _ g1.ok (by exact hs) (by exact hcred) hg)
+          · exact xqFinish_good st i _ _ _ _ h (by exact hs) (by exact hcred) hg
+        · split at hg
+          · have h1 : CtxOK { c with svcs := setSvc c.svcs i (some { srv with bad := srv.bad + 1, badAcct := srv.badAcct + (if c.req.account.isEmpty then 0 else 1) }) } :=
+              ⟨h.req, h.svcs.set i _ (by intro s hs'; simp only [Option.some.injEq] at hs'; subst hs'; exact hs), h.rules, h.lim⟩
+            have g := kill_good _ _ _ h1 (hrc.drop 3) hg
+            exact ⟨g.ok, (Wrote.of_eq rfl rfl).trans g.wrote⟩
+          · split at hg
+            · have g0 := emitC (rep.drop 6) (hrc.drop 6)
+              exact g0.trans (xqFinish_good st i _ _ cli _ g0.ok (by exact hs) (by exact hcred) hg)
+            · split at hg
+              · have g0 := emitC (rep.drop 5) (hrc.drop 5)
+                exact g0.trans (xqFinish_good st i _ _ _ _ g0.ok (by exact hs) (by exact hcred) hg)
+              · simp only [pure, Except.pure, Except.ok.injEq] at hg; subst hg; exact Good.refl h
+
+/-! ### server events -/
+
+theorem fieldChange_good (st : Static) (p : Bool) (c : Ctx) (h : CtxOK c) : Good c (fieldChange st p c) := by
+  unfold fieldChange; split
+  · exact xqCheck_good p c h
+  · exact Good.refl h
+
+/-- what an event may carry -/
+def EvOK : Ev → Prop
+  | .hostname h => ∀ x, h = some x → Clean x
+  | .noHostname => True
+  | .password p => ∀ x, p = some x → Clean x
+  | .userInfo user real => NoSp user ∧ Clean user ∧ Clean real
+  | .ident i => ∀ x, i = some x → Clean x
+  | .nick n => ∀ x, n = some x → Clean x
+  | .hurry => True
+  | .timeout => True
+
+theorem reqEvent_good (st : Static) (c c' : Ctx) (ev : Ev) (h : CtxOK c) (hev : EvOK ev)
+    (hg : reqEvent st c ev = .ok c') : Good c c' := by
+  have fin : ∀ c1 : Ctx, gate st (fieldChange st false c1) = .ok c' → CtxOK c1 → c1.out = c.out → c1.lim = c.lim → Good c c' := by
+    intro c1 hgg h1 ho hl
+    have g1 := fieldChange_good st false c1 h1
+    have g2 := gate_good st _ _ g1.ok hgg
+    exact ⟨g2.ok, (Wrote.of_eq ho hl).trans (g1.wrote.trans g2.wrote)⟩
+  have flagsOnly : ∀ (f : Flags → Flags), CtxOK (updReq c fun r => { r with flags := f r.flags }) :=
+    fun f => h.upd _ (fun r => ⟨rfl, rfl, rfl, rfl, rfl, rfl, rfl, rfl, rfl, rfl, rfl, rfl⟩)
+  cases ev with
+  | hostname hn =>
+    simp only [reqEvent] at hg
+    split at hg
+    · simp only [pure, Except.pure, Except.ok.injEq] at hg; subst hg; exact Good.refl h
+    · split at hg
+      · cases hg
+      · rename_i x
+        have hx : Clean x := hev x rfl
+        refine fin _ hg ?_ rfl rfl
+        refine ⟨⟨⟨h.req.head.client, h.req.head.port, h.req.head.addrW, h.req.head.addrC, h.req.head.addrL⟩, h.req.serial, ?_⟩,
+          h.svcs, h.rules, h.lim⟩
+        exact ⟨h.req.text.acctS, h.req.text.acctC, h.req.text.acctL, h.req.text.clsS, h.req.text.clsC, h.req.text.clsL,
+          h.req.text.userS, h.req.text.userC, h.req.text.userL, hx.take _, h.req.text.authC, h.req.text.nickC,
+          h.req.text.realC, h.req.text.credC⟩
+  | noHostname =>
+    simp only [reqEvent] at hg
+    exact fin _ hg (flagsOnly fun f => { f with gotHost := true }) rfl rfl
+  | password p =>
+    simp only [reqEvent, bind, Except.bind] at hg
+    have h1 : CtxOK (updReq c fun r => { r with flags := { r.flags with gotPass := true } }) :=
+      flagsOnly fun f => { f with gotPass := true }
+    split at hg
+    · split at hg
+      · cases hg
+      · rename_i c1 hx
+        have g1 := xqPassword_good _ _ p h1 hev hx
+        have g2 := gate_good st _ _ g1.ok hg
+        exact ⟨g2.ok, (Wrote.of_eq rfl rfl).trans (g1.wrote.trans g2.wrote)⟩
+    · simp only [pure, Except.pure] at hg
+      have g2 := gate_good st _ _ h1 hg
+      exact ⟨g2.ok, (Wrote.of_eq rfl rfl).trans g2.wrote⟩
+  | userInfo user real =>
+    simp only [reqEvent] at hg
+    obtain ⟨u1, u2, u3⟩ := hev
+    refine fin _ hg ?_ rfl rfl
+    refine ⟨⟨⟨h.req.head.client, h.req.head.port, h.req.head.addrW, h.req.head.addrC, h.req.head.addrL⟩, h.req.serial, ?_⟩,
+      h.svcs, h.rules, h.lim⟩
+    refine ⟨h.req.text.acctS, h.req.text.acctC, h.req.text.acctL, h.req.text.clsS, h.req.text.clsC, h.req.text.clsL,
+      u1.take _, u2.take _, ?_, h.req.text.hostC, h.req.text.authC, h.req.text.nickC, u3.take _, h.req.text.credC⟩
+    show (strncpyN c.lim.user user).length ≤ c.lim.user
+    unfold strncpyN; rw [List.length_take]; omega
+  | ident i =>
+    simp only [reqEvent] at hg
+    refine fin _ hg ?_ rfl rfl
+    cases i with
+    | some x =>
+      have hx : Clean x := hev x rfl
+      refine ⟨⟨⟨h.req.head.client, h.req.head.port, h.req.head.addrW, h.req.head.addrC, h.req.head.addrL⟩, h.req.serial, ?_⟩,
+        h.svcs, h.rules, h.lim⟩
+      exact ⟨h.req.text.acctS, h.req.text.acctC, h.req.text.acctL, h.req.text.clsS, h.req.text.clsC, h.req.text.clsL,
+        h.req.text.userS, h.req.text.userC, h.req.text.userL, h.req.text.hostC, hx.take _, h.req.text.nickC,
+        h.req.text.realC, h.req.text.credC⟩
+    | none =>
+      refine h.upd _ (fun r => ?_)
+      dsimp only
+      split <;> exact ⟨rfl, rfl, rfl, rfl, rfl, rfl, rfl, rfl, rfl, rfl, rfl, rfl⟩
+  | nick n =>
+    simp only [reqEvent] at hg
+    split at hg
+    · cases hg
+    · rename_i x
+      have hx : Clean x := hev x rfl
+      refine fin _ hg ?_ rfl rfl
+      refine ⟨⟨⟨h.req.head.client, h.req.head.port, h.req.head.addrW, h.req.head.addrC, h.req.head.addrL⟩, h.req.serial, ?_⟩,
+        h.svcs, h.rules, h.lim⟩
+      exact ⟨h.req.text.acctS, h.req.text.acctC, h.req.text.acctL, h.req.text.clsS, h.req.text.clsC, h.req.text.clsL,
+        h.req.text.userS, h.req.text.userC, h.req.text.userL, h.req.text.hostC, h.req.text.authC, hx.take _,
+        h.req.text.realC, h.req.text.credC⟩
+  | hurry =>
+    simp only [reqEvent] at hg
+    exact fin _ hg (flagsOnly fun f => { (f.or st.need) with gotHurry := true }) rfl rfl
+  | timeout =>
+    simp only [reqEvent] at hg
+    have h1 : CtxOK (updReq c fun r => { r with soft := 0, timer := .fired, flags := { r.flags with timedOut := true } }) :=
+      h.upd _ (fun r => ⟨rfl, rfl, rfl, rfl, rfl, rfl, rfl, rfl, rfl, rfl, rfl, rfl⟩)
+    have g2 := gate_good st _ _ h1 hg
+    exact ⟨g2.ok, (Wrote.of_eq rfl rfl).trans g2.wrote⟩
+
+end Iauthd.Proto
